@@ -543,6 +543,18 @@ fn pq_views() -> RecordBatch {
     ])
 }
 
+/// dictionary-typed columns (read back through the dictionary-preserving reader because the embedded
+/// Arrow schema is kept) whose index pages contain RLE runs (>= 8 equal keys) and bit-packed groups
+fn pq_dict_runs() -> RecordBatch {
+    let words = ["red", "green", "blue"];
+    let rows: Vec<Option<usize>> = (0..24).map(|i| match i { 0..=9 => Some(2), 10 => None, 11..=13 => Some(i % 3), 14..=22 => Some(1), _ => Some(0) }).collect();
+    let d8: DictionaryArray<Int8Type> = rows.iter().map(|r| r.map(|i| words[i])).collect();
+    let keys = Int16Array::from(rows.iter().map(|r| r.map(|i| i as i16)).collect::<Vec<_>>());
+    let vals = BinaryArray::from(vec![&b"\x00\x01"[..], &b"zz"[..], &b""[..]]);
+    let d16 = DictionaryArray::<Int16Type>::try_new(keys, Arc::new(vals)).unwrap();
+    batch(vec![("d8", Arc::new(d8), true), ("d16", Arc::new(d16), true)])
+}
+
 fn base(c: Compression, v2: bool) -> WriterPropertiesBuilder {
     WriterProperties::builder()
         .set_compression(c)
@@ -614,6 +626,7 @@ fn parquet_entries(out: &mut Vec<Entry>) {
             false,
         ),
         ("views-arrowmeta-v1", vec![pq_views()], base(Compression::UNCOMPRESSED, false).set_statistics_enabled(EnabledStatistics::None).build(), false, false),
+        ("dictcols-runs-arrowmeta-v1", vec![pq_dict_runs()], base(Compression::UNCOMPRESSED, false).set_dictionary_enabled(true).set_statistics_enabled(EnabledStatistics::None).build(), false, false),
         ("empty-v1", vec![b_empty_rows()], base(Compression::UNCOMPRESSED, false).build(), true, false),
     ];
     for (name, batches, props, skip_meta, page_index) in sets {
